@@ -13,13 +13,18 @@ let alphabet : (string * int * int * int) list = [
   "lp", 0x28, 1, 1; "rp", 0x29, 1, 1; "lk", 0x5B, 1, 1; "rk", 0x5D, 1, 1; "lc", 0x7B, 1, 1; "rc", 0x7D, 1, 1;
 ]
 
+(* character identity = small index: a=1 b=2 c=3 d=4 x=5 sp=6 e2=7 w3=8 z3=9 w4=10 z2=11 bang=12 ... rc=21 *)
+let ids : (string * int) list = [
+  "a", 1; "b", 2; "c", 3; "d", 4; "x", 5; "sp", 6; "e2", 7; "w3", 8; "z3", 9; "w4", 10; "z2", 11;
+  "bang", 12; "comma", 13; "semi", 14; "hash", 15; "lp", 16; "rp", 17; "lk", 18; "rk", 19; "lc", 20; "rc", 21 ]
+
 let chr_of_sym (s : string) : chr =
   match s with
   | "TAB" -> Tab | "CR" -> Cr | "LF" -> Lf
   | _ ->
     let rec go = function
       | [] -> failwith ("unknown symbol " ^ s)
-      | (n, cp, l, w) :: _ when n = s -> Ch (nat_of_int l, nat_of_int w, nat_of_int cp)
+      | (n, _, l, w) :: _ when n = s -> Ch (nat_of_int l, nat_of_int w, nat_of_int (List.assoc s ids))
       | _ :: r -> go r in
     go alphabet
 
@@ -27,12 +32,12 @@ let sym_of_chr (c : chr) : string =
   match c with
   | Tab -> "TAB" | Cr -> "CR" | Lf -> "LF"
   | Ch (_, _, id) ->
-    let cp = int_of_nat id in
+    let i = int_of_nat id in
     let rec go = function
       | [] -> failwith "unknown chr"
-      | (n, cp', _, _) :: _ when cp' = cp -> n
+      | (n, i') :: _ when i' = i -> n
       | _ :: r -> go r in
-    go alphabet
+    go ids
 
 let print_alphabet () =
   List.iter (fun (n, cp, l, w) -> Printf.printf "(sym %s %d %d %d)\n" n cp l w) alphabet
